@@ -1,10 +1,10 @@
 #!/bin/bash
-# usage: tools/run_all.sh [tier] [seed...]   - runs every registered check sequentially, prints one line per check
+# usage: [IDS="C01 C02"] tools/run_all.sh [tier] [seed...]   - runs every (or the named) registered check sequentially, one line per check
 cd "$(dirname "$(dirname "$(readlink -f "$0")")")"
 TIER=${1:-quick}; shift
 SEEDS=${@:-1}
 for S in $SEEDS; do
-  for ID in C01 C02 C03 C04 C05 C06 C07 C08 C09 C10 C11 C12 C13 C14 C15 C16 C17 C18 C19 C20; do
+  for ID in ${IDS:-C01 C02 C03 C04 C05 C06 C07 C08 C09 C10 C11 C12 C13 C14 C15 C16 C17 C18 C19 C20}; do
     T0=$(date +%s)
     VERIF_SEED=$S ./check $ID --tier $TIER > /tmp/runall-$ID-$S.log 2>&1; RC=$?
     echo "seed=$S $ID exit=$RC $(( $(date +%s) - T0 ))s $(grep -E '^  message|HARNESS' /tmp/runall-$ID-$S.log | head -2 | cut -c1-200)"
